@@ -48,19 +48,23 @@ def instances(tier, seed):
     for default in ('zero', 'fail'):
         out.append({'id': f'explorer:conv2d:{default}:two_user_constraints', 'kind': 'explorer', 'nd': 2, 'default': default, 'interleave': False,
                     'patterns': ['generic', 'dw', 'user', 'user2']})
+    # the unconstrained pattern of the type registered twice (a later assignment replaces / shadows the earlier one) among constrained ones
+    for default in ('zero', 'fail'):
+        out.append({'id': f'explorer:conv2d:{default}:generic_twice', 'kind': 'explorer', 'nd': 2, 'default': default, 'interleave': False,
+                    'patterns': ['generic', 'generic2', 'dw', 'k3']})
     out.append({'id': 'crosshair', 'kind': 'crosshair', 'timeout': 45 if tier == 'quick' else 400, 'must_confirm': tier != 'quick'})
     return out
 
 
 def reference(order, sat, default):
     """the declarative rule. order: tuple of pattern names as registered; sat: dict name->bool (constraint truth)"""
-    matches = [p for p in order if p != 'generic' and sat[p]]
+    matches = [p for p in order if p not in ('generic', 'generic2') and sat[p]]
     if len(matches) >= 2:
         return 'CONFLICT'
     if len(matches) == 1:
         return matches[0]
-    if 'generic' in order:
-        return 'generic'
+    if 'generic' in order or 'generic2' in order:
+        return 'generic'        # either registration of the unconstrained pattern (which of the two is kept is not specified)
     return 'default:' + default
 
 
@@ -71,8 +75,8 @@ def build_spec_and_lookup(order, default, nd, spec, user_constraint, interleave=
     from plinio.cost.cost_spec import cost_spec_zero_fn, cost_spec_fail_fn
     from plinio.cost.pattern import conv_dw_constraint, conv_3_constraint
     ltype = nn.Conv1d if nd == 1 else nn.Conv2d
-    fns = {p: (lambda s, _p=p: _p) for p in PATTERNS + ('user2',)}
-    constr = {'generic': None, 'dw': conv_dw_constraint, 'k3': conv_3_constraint, 'user': user_constraint, 'user2': user2_constraint}
+    fns = {p: (lambda s, _p=p: _p) for p in PATTERNS + ('user2', 'generic2')}
+    constr = {'generic': None, 'generic2': None, 'dw': conv_dw_constraint, 'k3': conv_3_constraint, 'user': user_constraint, 'user2': user2_constraint}
     cs = CostSpec(shared=True, default_behavior=default)
     for i, p in enumerate(order):
         if interleave:
@@ -83,9 +87,9 @@ def build_spec_and_lookup(order, default, nd, spec, user_constraint, interleave=
         fn = cs[(ltype, spec)]
     except KeyError as e:
         return 'CONFLICT' if 'conflict' in str(e).lower() else f'KeyError:{e}'
-    for p in PATTERNS + ('user2',):
+    for p in PATTERNS + ('user2', 'generic2'):
         if fn is fns[p]:
-            return p
+            return 'generic' if p == 'generic2' else p
     if fn is cost_spec_zero_fn:
         return 'default:zero'
     if fn is cost_spec_fail_fn:
